@@ -987,30 +987,57 @@ Proof.
 Qed.
 
 (* The manifest-only part of Dataset::validate plus the storage facts (tombstoned fields are accepted since
-   repo commit 77d5a8a).
-   _partial: four conditions of validate are hypotheses here because build_manifest does not maintain them as
+   repo commit 77d5a8a - except in legacy files: the remaining known-finding class).
+   _partial: five conditions of validate are hypotheses here because build_manifest does not maintain them as
    invariants: every fragment has a data file and every data file keeps a field of the schema (true after
    drop_columns = Project, not after a Merge that drops columns), no fragment mixes legacy and non-legacy
-   files, index ids are unique and the bitmaps of equally named indices are disjoint. *)
+   files, a legacy file lists its live fields in increasing order (what the legacy writer does), index ids are
+   unique and the bitmaps of equally named indices are disjoint. *)
+Lemma strict_sorted_z_live fields :
+  z_mem TOMBSTONE fields = false -> strict_sorted_z (filter (fun x => negb (x =? TOMBSTONE)%Z) fields) = true -> strict_sorted_z fields = true.
+Proof.
+  intros T H. rewrite filter_all_true in H; [exact H|]. apply forallb_forall. intros x I. apply negb_true_iff. apply Z.eqb_neq.
+  intro E. subst x. apply z_mem_false in T. contradiction.
+Qed.
+
+Lemma legacy_files_valid m f :
+  Known_C05_validate_rejects_tombstone_in_legacy_file m = false -> In f (m_fragments m) ->
+  forallb (fun d => negb (is_legacy_file d) || strict_sorted_z (filter (fun x => negb (x =? TOMBSTONE)%Z) (df_fields d))) (fr_files f) = true ->
+  forallb validate_data_file (fr_files f) = true.
+Proof.
+  intros K I H3. apply forallb_forall. intros d Id. unfold validate_data_file. destruct (is_legacy_file d) eqn:L; [|reflexivity].
+  pose proof (forallb_In _ _ _ H3 Id) as Q. cbn beta in Q. rewrite L in Q. cbn [negb orb] in Q.
+  apply strict_sorted_z_live; [|exact Q].
+  destruct (z_mem TOMBSTONE (df_fields d)) eqn:T; [|reflexivity]. exfalso.
+  unfold Known_C05_validate_rejects_tombstone_in_legacy_file in K.
+  assert (E : existsb (fun f => existsb (fun d => is_legacy_file d && z_mem TOMBSTONE (df_fields d)) (fr_files f)) (m_fragments m) = true).
+  { apply existsb_exists. exists f. split; [exact I|]. apply existsb_exists. exists d. split; [exact Id | rewrite L, T; reflexivity]. }
+  rewrite E in K. discriminate.
+Qed.
+
 Theorem validate_dataset_ok_partial m :
   wf_manifest m = true ->
+  Known_C05_validate_rejects_tombstone_in_legacy_file m = false ->
   forallb (fun f => negb (match fr_files f with [] => true | _ => false end)
                     && forallb (fun d => existsb (fun x => z_mem x (m_schema m)) (df_fields d)) (fr_files f)
-                    && Bool.eqb (existsb is_legacy_file (fr_files f)) (forallb is_legacy_file (fr_files f))) (m_fragments m) = true ->
+                    && Bool.eqb (existsb is_legacy_file (fr_files f)) (forallb is_legacy_file (fr_files f))
+                    && forallb (fun d => negb (is_legacy_file d) || strict_sorted_z (filter (fun x => negb (x =? TOMBSTONE)%Z) (df_fields d))) (fr_files f)) (m_fragments m) = true ->
   nodup_n (map ix_uuid (m_indices m)) && indices_disjoint (m_indices m) = true ->
   validate_dataset m = true.
 Proof.
-  intros W HF HI. unfold validate_dataset.
+  intros W K HF HI. unfold validate_dataset.
   destruct (wf_facts _ m W eq_refl) as [_ [C [ND _]]].
   unfold wf_manifest in W. rewrite !andb_true_iff in W. destruct W as [[[[_ B] S] _] _].
   rewrite (proj2 (nodup_n_NoDup _) ND), (strict_sorted_sorted _ S). cbn [andb]. rewrite <- andb_assoc, HI, andb_true_r.
   apply forallb_forall. intros f I.
   pose proof (forallb_In _ _ _ C I) as Cf. pose proof (forallb_In _ _ _ HF I) as Hf.
-  apply andb_true_iff in Hf as [Hf H2]. apply andb_true_iff in Hf as [H0 H1].
+  apply andb_true_iff in Hf as [Hf H3]. apply andb_true_iff in Hf as [Hf H2]. apply andb_true_iff in Hf as [H0 H1].
   destruct (frag_consistent_phys _ _ Cf) as [p Ep]. destruct (frag_consistent_files _ _ _ Cf Ep) as [R [NDf POS]].
   unfold validate_fragment. rewrite H1, H2, Ep.
   rewrite (validate_files_ok (fr_files f) [] NDf POS); [|intros x _ []].
   cbn [andb].
+  pose proof (legacy_files_valid m f K I H3) as DF.
+  rewrite DF. cbn [andb].
   assert (EXP : match fr_files f with d :: _ => df_rows d | [] => 0 end = p).
   { destruct (fr_files f) as [|d r]; [discriminate|]. cbn [forallb] in R. apply andb_true_iff in R as [R _]. apply N.eqb_eq. exact R. }
   apply frag_consistent_iff in Cf as [Bf _].
@@ -1029,6 +1056,15 @@ Definition tombstone_witness : Manifest :=
 Lemma tombstone_witness_validates :
   wf_manifest tombstone_witness = true /\ existsb has_tombstone (m_fragments tombstone_witness) = true /\ validate_dataset tombstone_witness = true.
 Proof. vm_compute. repeat split; reflexivity. Qed.
+
+(* validate_rejects_tombstone_in_legacy_file: the same shape with legacy (0.2) files *)
+Definition legacy_tombstone_witness : Manifest :=
+  mkManifest 2 [0%Z; 1%Z; 2%Z]
+    [mkFragment 0 (Some 3) [mkDataFile 0 [0%Z; (-2)%Z; 2%Z] (0, 2) 3; mkDataFile 1 [1%Z] (0, 2) 3] None None None None]
+    (Some 0) None Legacy [].
+Lemma validate_rejects_tombstone_in_legacy_file_refuted :
+  exists m, wf_manifest m = true /\ Known_C05_validate_rejects_tombstone_in_legacy_file m = true /\ validate_dataset m = false.
+Proof. exists legacy_tombstone_witness. vm_compute. repeat split; reflexivity. Qed.
 
 (* stable_rowids_deferred_remap_unassigned_fragment_ids: the index bitmap recomputed by the Rewrite arm names
    fragment 0 although the new fragment gets id 4 *)
